@@ -157,7 +157,8 @@ func runSynthetic(o *hlib.Out, r *hlib.Rand, thorough bool) {
 		}
 		pr := r.Fork()
 		runSynTree(o, root, k, func(rc *rec) ([]opDesc, bool, bool) {
-			ops, so := planFor(rc, pr, level)
+			rc.wantAgg = true
+			ops, so := planFor(rc, pr, level, cliFmtFor(fmt.Sprintf("syn:%s:v%d", hlib.Hex(root), k)))
 			return ops, so, true
 		})
 	}
@@ -165,7 +166,8 @@ func runSynthetic(o *hlib.Out, r *hlib.Rand, thorough bool) {
 	bigRoot := r.Bytes(1100)
 	pr := r.Fork()
 	runSynTree(o, bigRoot, 100, func(rc *rec) ([]opDesc, bool, bool) {
-		ops, so := planFor(rc, pr, 2)
+		rc.wantAgg = true
+		ops, so := planFor(rc, pr, 2, cliFmtFor(fmt.Sprintf("syn:%s:v%d", hlib.Hex(bigRoot), 100)))
 		return ops, so, true
 	})
 	o.Stat("exhaustive_small_domain", 1)
